@@ -173,12 +173,11 @@ def load_theory_cache(filename, username="master"):
                     theory.thy.unchecked_extend(item.get_extension())
 
         # Use this theory to parse the content of current theory
-        cache['timestamp'] = timestamp
         data = load_json_data(filename, username)
-        cache['content'] = []
+        content = []
         for index, item in enumerate(data['content']):
             item = items.parse_item(item)
-            cache['content'].append(item)
+            content.append(item)
             if item.error is None:
                 exts = item.get_extension()
                 theory.thy.unchecked_extend(exts)
@@ -188,6 +187,11 @@ def load_theory_cache(filename, username="master"):
                     else:
                         name = ext.name
                     item_index[username][(ext.ty, name)] = (filename, timestamp, index)
+
+    # Record the result only after everything is parsed: an exception above
+    # must not leave a partial content marked as up to date.
+    cache['content'] = content
+    cache['timestamp'] = timestamp
 
     return cache
 
